@@ -150,6 +150,13 @@ def _norm(t):
             return ("ref", ("index", base, x[2][1]))
         if x[0] == "index" and x[1][0] in ("ref",):
             return ("index", x[1][1], x[2])
+        # the field element's constant constructors (their bodies are checked by the identity-* obligations)
+        if x[0] == "call" and x[1] == "octet::Octet::zero" and not x[2]:
+            return ("agg", "adt:octet::Octet", (("const", 0),))
+        if x[0] == "call" and x[1] == "octet::Octet::one" and not x[2]:
+            return ("agg", "adt:octet::Octet", (("const", 1),))
+        if x[0] == "call" and x[1] == "octet::Octet::new" and len(x[2]) == 1:
+            return ("agg", "adt:octet::Octet", (x[2][0],))
         return x
     return terms.normalise(terms.strip_casts(terms.simplify(terms.map_term(t, f))))
 
@@ -260,6 +267,9 @@ def run_operators(rep, crate, cfg):
                 for i, s in enumerate(blk["stmts"]):
                     if s["s"] == "assign" and s["lhs"]["l"] == 0 and not s["lhs"]["proj"]:
                         sites.append((blk["i"], _norm(tb.rvalue(blk["i"], i, s["rv"]))))
+                tt = blk["term"]
+                if tt["t"] == "call" and tt["dest"]["l"] == 0 and not tt["dest"]["proj"] and tt.get("target") is not None:
+                    sites.append((tt["target"], _norm(tb.call_term(blk["i"], tt))))
             zero = ("agg", AGG, (("const", 0),))
             if is_mul:
                 prods = [("agg", AGG, (p,)) for p in product(a, b)]
